@@ -24,6 +24,7 @@ def run(prog, chk):
         "collapse_varscalar only collapses when all values agree; get_userspace_location maps design to user space and keys by axis tag (R10.5)",
         "_featuresCompatible: all masters' feature text equals the default's, or only the default has any (R10.6)",
     ]
+    chk.decided += ["an existing mark class definition only stands for a (variable) anchor that equals it field by field (shared with C06) (R10.8)"]
     chk.decided += ["for a designspace the kerning groups are collected from every source's font, not from one master (a class pair of a master whose group the others lack keeps its value) (R10.7)"]
     chk.not_decided += ["gvar / HVAR / GPOS variation data computed by fontTools.varLib and feaLib", "numeric reproduction of the masters"]
     chk.guard(r101, prog, chk)
@@ -33,6 +34,8 @@ def run(prog, chk):
     chk.guard(r105, prog, chk)
     chk.guard(r106, prog, chk)
     chk.guard(r107, prog, chk)
+    from .c06 import r0618
+    chk.guard(r0618, prog, chk, "R10.8")
 
 
 def _source_loops(prog, f: FuncInfo) -> List[ast.For]:
